@@ -110,6 +110,12 @@ add("C02", "xenum", "exploration",
     "Requests, keys, nonces are fixed alphabets (2/4 requests x 2/3 keys per type); truncations and extensions are judged semantically only.",
     "DESIGN.md 4 C02")
 
+add("C16", "xenum+seqx", "model_checking",
+    "exhaustive enumeration of argument placements (every byte-slice argument of 51 exported operations x spare capacity {0,1,16,64,512} x fill {00,AA,FF} in guarded buffers) plus explicit-state enumeration of call histories (depth 3/4 over 7 operations) on one request state / issuer per token type with every hand-out deep-copied and re-compared after every step",
+    "No operation changes its argument, the spare capacity behind it or the guard bytes, and its result (digest of everything returned, under a per-case deterministic entropy stream) is independent of capacity and fill; request fields, encodings, issuer responses and tokens handed out earlier keep their bytes across finalize (valid and invalid), evaluate, verify and marshal in every order; the request still marshals to what was created and is still evaluable.",
+    "Operations are exercised with honest argument values; memory reachable only through unexported fields is observed indirectly (through later results).",
+    "DESIGN.md 4 C16")
+
 NOT_APPLICABLE = {}
 
 ALL = ["C%02d" % i for i in range(1, 21)]
